@@ -2,7 +2,7 @@
    transformed vectors in [0,1]^M, hence (wfg_lower_partial) sum_m (f_m/2m)^2 >= 1 for every in-bounds input. *)
 From Coq Require Import Reals List ZArith Lia Lra Bool.
 Import ListNotations.
-From PV Require Import Base.RList Gen.Problems Model.ProblemsRef Proofs.ProblemsProofs Proofs.ProblemsDTLZ Proofs.ProblemsWFG Proofs.ProblemsWFGT.
+From PV Require Import Base.RList Gen.Problems Model.ProblemsRef Proofs.ProblemsProofs Proofs.ProblemsDTLZ Proofs.ProblemsWFG Proofs.ProblemsWFGT Proofs.ProblemsNonsep.
 Open Scope R_scope.
 Set Default Timeout 60.
 
@@ -99,9 +99,7 @@ Proof.
   - pose proof (pos_INR (length y)). split; [apply div_nonneg; lra|apply div_le_1; lra].
 Qed.
 
-(* THE MISSING LEMMA (stated, not proved): r_nonsep with A = |y| maps [0,1]^n into [0,1].  Its upper half is the
-   inequality  sum_j y_j + sum_{i<>j} |y_i - y_j| <= ceil(n/2) (1 + 2n - 2 ceil(n/2))  for y in [0,1]^n. *)
-Definition r_nonsep_full_range : Prop := forall y, in01 y -> 0 <= fn_r_nonsep_eval y (zlen y) <= 1.
+(* r_nonsep with A = |y| maps [0,1]^n into [0,1]: Proofs/ProblemsNonsep.v (r_nonsep_full_range_proved) *)
 
 Lemma subvector_zlen : forall y a b, (a <= b)%Z -> zlen (fn_subvector_eval y a b) = (b - a)%Z.
 Proof. intros y a b H. unfold zlen, fn_subvector_eval. rewrite map_length, zrange_length. lia. Qed.
@@ -140,6 +138,12 @@ Proof.
   - unfold zlen in *. rewrite wfg9_t2_length, wfg9_t1_length, normalize_length; [exact Hk|rewrite normalize_length; lia].
   - apply wfg9_t2_in01, wfg9_t1_in01, normalize_in01, Hz.
 Qed.
+
+(* with the range of r_nonsep proved, the WFG6 and WFG9 clauses are unconditional *)
+Theorem wfg6_lower : forall M nvars z, (2 <= M)%Z -> (M - 1 <= zlen z)%Z -> wfg_box z -> 1 <= wfg_scaled_sumsq (WFG6_eval M nvars z).
+Proof. exact (wfg6_lower_partial r_nonsep_full_range_proved). Qed.
+Theorem wfg9_lower : forall M nvars z, (2 <= M)%Z -> (M - 1 <= zlen z)%Z -> wfg_box z -> 1 <= wfg_scaled_sumsq (WFG9_eval M nvars z).
+Proof. exact (wfg9_lower_partial r_nonsep_full_range_proved). Qed.
 
 (* non-vacuity: an in-bounds WFG decision vector (the samplers' optimal distance values 0.35 * 2i, 12 variables) *)
 Example wfg_box_example : wfg_box (map (fun i => 7 / 20 * (2 * INR (S i))) (seq 0 12)).
